@@ -81,3 +81,8 @@ CHECKS["C19"] = ("exploration",
    "Strings (XML specials, spaces, tab/LF/CR, combining marks, BMP, astral, up to 32000 characters) are stored in every form each format offers (xlsx shared/inline/str x plain/rich/phonetic x four escaping layers with empty shared items interleaved; xlsb Isst/St/FmlaString; xls LABELSST/LABEL/FORMULA+STRING in 8/16-bit; ods string-value/text:p/text:s/paragraphs/spans) and must read back exactly.",
    "trusted base: the four reference encoders; empty-text cells, _xHHHH_, text:tab, text:line-break outside the statement",
    "DESIGN.md §7 C19")
+CHECKS["C10"] = ("exploration",
+   "runtime monitoring: exhaustive token-sequence enumeration through the classifier hook vs token-level reference classifier; generated styled workbooks in three formats",
+   "Every admissible sequence of <= 3 tokens of a 90-token number-format grammar (x 3 section variants), sampled longer formats and every built-in id are classified by the real code through a hook and compared with a reference classifier that works on the generating token list; workbooks with random style tables, every numeric encoding and both date systems are read back in xlsx, xlsb and xls and the DateTime/duration/plain typing of every numeric cell is compared with the model.",
+   "trusted base: the token grammar and its admissibility rules (listed in the evidence assumptions); locale-dependent built-in ids unchecked",
+   "DESIGN.md §7 C10")
